@@ -332,6 +332,13 @@ def check_latitude_iteration(fx, R, d, Ldef):
     else:
         qf = 0.01
         bound = 1e-11 * (1 - qf) / qf
+        ulp = 2.220446049250313e-16
+        exits = [x for x in walk(L_['b']) if x.get('k') in ('Break', 'Return')]
+        if 0 < tol <= ulp and len(exits) == 1:
+            R.violated('A6', 'computeLatitude:tolerance-below-resolution', 'the only exit of the latitude iteration is |delta| < %g, not above the spacing %.3g of doubles for latitudes of 1 rad and more (the quantifier '
+                       'reaches 83 deg): it can only be met by an exact fixed point; when rounding makes the update alternate between two adjacent doubles the loop never ends' % (tol, ulp), loc, 'E-INT')
+        elif len(exits) == 1:
+            R.holds('A6', 'computeLatitude:tolerance-below-resolution', 'tolerance %g is above the spacing of doubles at pi/2 (%.3g)' % (tol, ulp), loc, 'E-INT')
         R.check(0 < tol <= bound, 'A6', 'computeLatitude:tolerance', 'the latitude iteration stops at |delta| < %g; with contraction factor about e^2 <= 0.01 the error can reach %.3g rad, above the 1e-11 rad of the '
                 'statement (tolerance must not exceed %.3g)' % (tol, tol * qf / (1 - qf), bound), 'tolerance %g <= %.3g' % (tol, bound), loc, 'E-INT')
     R.check(res == 0, 'A5', 'computeLatitude:fixed-point', 'with L = L(phi) the update gives lat\' - phi = %s (should vanish: 2 atan(tan(pi/4+phi/2)) - pi/2 = phi)' % res,
